@@ -215,7 +215,7 @@ fn main() {
         let budget = std::env::var("SEARCH_BUDGET_SECS")
             .ok()
             .and_then(|s| s.parse::<u64>().ok())
-            .unwrap_or(18);
+            .unwrap_or(25);
         let mut ctx = Ctx {
             evaluated: 0,
             deadline: Instant::now() + Duration::from_secs(budget),
